@@ -179,6 +179,41 @@ def run_case(case):
     except Exception as e:  # noqa
         out["notes"].append(f"power-reduction oracle not applicable: {type(e).__name__}")
     out["power_reductions_checked"] = True
+    # ... and rewriting a *comparison* of such a variable through its value set must keep its truth value on every value of
+    # the set (atoms v op c and their negations are normalised by the real code and evaluated before / after)
+    try:
+        from program.condition import Atom, Not
+        from symengine.lib.symengine_wrapper import Symbol as _Sym
+        checked = 0
+        for v, t in program.typedefs.items():
+            if not isinstance(t, Finite) or checked >= 4:
+                continue
+            try:
+                fvals = sorted(float(x) for x in t.values)
+            except Exception:  # noqa
+                continue
+            consts = sorted({int(math.floor(fvals[0])) - 1, int(math.ceil(fvals[-1])) + 1} | {int(round(x)) for x in fvals})
+            checked += 1
+            for cop in ("==", "<=", ">=", "<", ">"):
+                for c in consts:
+                    for negate in (False, True):
+                        orig = Atom(str(v), cop, str(c))
+                        cond = Not(orig.copy()) if negate else orig.copy()
+                        normalized, failed = cond.get_normalized(program)
+                        if failed:
+                            continue
+                        for val in fvals:
+                            st = {_Sym(str(v)): val}
+                            want = orig.evaluate(st) != negate
+                            got = normalized.evaluate(st)
+                            if bool(want) != bool(got):
+                                pr_problems.append({"var": str(v), "power": f"{'!' if negate else ''}({v} {cop} {c})", "value": str(val),
+                                                    "reduced": str(normalized), "values": [str(x) for x in fvals], "comparison": True})
+                                break
+                        if pr_problems and pr_problems[-1].get("comparison") and pr_problems[-1]["var"] == str(v):
+                            break
+    except Exception as e:  # noqa
+        out["notes"].append(f"comparison-rewriting oracle not applicable: {type(e).__name__}")
     out["normalized"] = str(program)
     kinds = {"old": 0, "alias": 0, "r": 0, "t": 0, "c": 0, "orig": 0}
     for k in ftypes:
